@@ -1,0 +1,67 @@
+// SPDX-FileCopyrightText: 2026 The Pion community <https://pion.ly>
+// SPDX-License-Identifier: MIT
+
+//go:build verif
+
+// Package verifhook provides named observation and yield points for
+// runtime verification. With the "verif" build tag a harness installs
+// handlers with Install; without handlers every call is a no-op.
+package verifhook
+
+import (
+	"sync"
+	"sync/atomic"
+)
+
+// Hooks are the handlers a verification harness installs.
+type Hooks struct {
+	// Point is called at every named yield point; it may sleep, yield or block.
+	Point func(name string)
+	// Observe is called for every named event.
+	Observe func(name string, key any, a, b int64)
+}
+
+var (
+	hooks     atomic.Pointer[Hooks] //nolint:gochecknoglobals
+	bracketMu sync.Mutex            //nolint:gochecknoglobals
+)
+
+// Install sets (or with nil removes) the handlers.
+func Install(h *Hooks) {
+	hooks.Store(h)
+}
+
+// Point is a named yield point.
+func Point(name string) {
+	if h := hooks.Load(); h != nil && h.Point != nil {
+		h.Point(name)
+	}
+}
+
+// Observe records a named event.
+func Observe(name string, key any, a, b int64) {
+	if h := hooks.Load(); h != nil && h.Observe != nil {
+		h.Observe(name, key, a, b)
+	}
+}
+
+// Bracket brackets a store to one state variable: it reads the value
+// before and (when the returned func is called) after the store and reports
+// both as one event, holding a global lock in between so that the order of
+// reported events is the order of the stores.
+func Bracket(name string, key any, read func() int64) func() {
+	h := hooks.Load()
+	if h == nil || h.Observe == nil {
+		return nop
+	}
+	bracketMu.Lock()
+	before := read()
+
+	return func() {
+		after := read()
+		h.Observe(name, key, before, after)
+		bracketMu.Unlock()
+	}
+}
+
+func nop() {}
